@@ -23,7 +23,7 @@ import propkit
 import vlib
 
 MANIFEST = {
-  "text": "proof over R (Coquelicot): _poly_force is the coefficient c(x), _poly_force_deriv = d/dx (x*c(x)) for every x incl. 0 and both parities; poly_potential' = x*c(x) up to the source's binary64 constant 1/3 (_partial); the passive damper kernel stores -v*c(v) for hinge/slide dofs; _compute_damping_deriv stores minus d(damper force)/dv; _euler_damp_qfrc adds h*deriv at rowadr+rownnz-1 which under MuJoCo's CSR-lower invariant is the unique diagonal slot of that dof and of no other; _qderiv_actuator_passive stores M - h*(qDeriv + [i=j] d damper/dv); muscle_gain_vel = d muscle_gain/d velocity away from the FV breakpoints (_partial); the actuator kernel's value is d force/d velocity, taken at the ctrlrange-clamped control, for fixed/affine/muscle gain and bias and every non-DC-motor dynamics (hand models), and 0 when clamped by forcerange; deriv_rne_body2jnt_sparse adds with flg_subtract=False. RNE passes, fluid and tendon-damping kernels, assembly of the whole matrix and float32 are tested only (MuJoCo analytic qDeriv and float64 finite differences on random models).",
+  "text": "proof over R (Coquelicot): _poly_force is the coefficient c(x), _poly_force_deriv = d/dx (x*c(x)) for every x incl. 0 and both parities; poly_potential' = x*c(x) up to the source's binary64 constant 1/3 (_partial); the passive damper kernel stores -v*c(v) for hinge/slide dofs; _compute_damping_deriv stores minus d(damper force)/dv; _euler_damp_qfrc adds h*deriv at rowadr+rownnz-1 which under MuJoCo's CSR-lower invariant is the unique diagonal slot of that dof and of no other; _qderiv_actuator_passive stores M - h*(qDeriv + [i=j] d damper/dv); the passive tendon kernel adds J*(-v*c(v)) and _qderiv_tendon_damping subtracts h*sum over ALL tendons of JJ(t)*d(damper force_t)/dv_t with JJ fixed before coefficients and velocities are chosen (no tendon skipped because of its coefficient values; the Jacobian row search itself is tested only); muscle_gain_vel = d muscle_gain/d velocity away from the FV breakpoints (_partial); the actuator kernel's value is d force/d velocity, taken at the ctrlrange-clamped control, for fixed/affine/muscle gain and bias and every non-DC-motor dynamics (hand models), and 0 when clamped by forcerange; deriv_rne_body2jnt_sparse adds with flg_subtract=False. RNE passes, fluid and tendon-damping kernels, assembly of the whole matrix and float32 are tested only (MuJoCo analytic qDeriv and float64 finite differences on random models).",
   "note": "trusted: Coq kernel + Coquelicot; translator bin/translate.py (validated each run: T-validation and traced-launch kernel validation); hand models Model/Deriv.v (compared with the real kernels each run); real-number axioms of Coq's Reals; MuJoCo 3.13 C as oracle; finite differences in float64 with step 1e-6",
   "technique": "Rocq proof over machine-translated functions/kernels (T) and two validated hand models, plus translation validation and a differential + finite-difference oracle",
   "engine": "coq",
@@ -35,7 +35,7 @@ FUNCS = ["_poly_force", "_poly_force_deriv", "poly_potential", "next_act"]
 KERNELS = {
   "T_derivative": ["_qderiv_actuator_passive", "_qderiv_actuator_passive_actuation_sparse", "_qderiv_tendon_damping", "deriv_rne_body2jnt_sparse", "deriv_rne_cvel_cdof_dot", "deriv_rne_cacc_cfrcbody_forward", "deriv_rne_cfrcbody_backward"],
   "kforward": ["_compute_damping_deriv", "_euler_damp_qfrc"],
-  "T_passive": ["_spring_damper_dof_passive"],
+  "T_passive": ["_spring_damper_dof_passive", "_spring_damper_tendon_passive"],
 }
 
 K_CTRL = "C27:_qderiv_actuator_passive_vel:ctrl-not-clamped"
@@ -282,7 +282,7 @@ def kvalidate(res, trs, quick):
   rng = np.random.default_rng(vlib.seed() + 2703)
   bad = []
   seen = set()
-  per_gen = {"T_derivative": [], "kforward": []}
+  per_gen = {"T_derivative": [], "kforward": [], "T_passive": []}
   for name, xml in KV_FIXTURES.items():
     for integ in (IMPLICITFAST, IMPLICIT, EULER):
       mjm = mujoco.MjModel.from_xml_string(xml)
@@ -290,6 +290,8 @@ def kvalidate(res, trs, quick):
       mjm.dof_dampingpoly[:] = rng.uniform(0, 0.3, (mjm.nv, 2))
       if mjm.ntendon:
         mjm.tendon_dampingpoly[:] = rng.uniform(0, 0.3, (mjm.ntendon, 2))
+        mjm.tendon_damping[0] = 0.0  # purely polynomial tendon damper (zero linear part)
+        mjm.dof_damping[0] = 0.0
       mjd = mujoco.MjData(mjm)
       mjd.qvel[:] = rng.normal(0, 2, mjm.nv).astype(np.float32)
       mjd.ctrl[:] = rng.normal(0, 1, mjm.nu).astype(np.float32)
@@ -303,7 +305,19 @@ def kvalidate(res, trs, quick):
       v = d.qvel.numpy()
       v[1] = rng.normal(0, 3, mjm.nv).astype(np.float32)
       wp.copy(d.qvel, wp.array(v, dtype=float))
-      mjw.forward(m, d)
+      trp = trs.get("T_passive")
+      if integ == IMPLICITFAST and trp is not None:
+        # the passive damper kernels whose force the derivative kernels differentiate
+        wantedp = {fi.pyqual: fi for k, fi in trp.kernels.items() if k in KERNELS["T_passive"]}
+        with ktrace.Tracer(wantedp, per_kernel=1) as tp:
+          mjw.forward(m, d)
+        for c in tp.cases:
+          c["fixture"], c["integrator"] = name, integ
+          seen.add(c["qual"].rsplit(".", 1)[-1])
+          res.nontrivial(("kv", name, integ, c["qual"].rsplit(".", 1)[-1]))
+        per_gen["T_passive"] += tp.cases
+      else:
+        mjw.forward(m, d)
       g = "kforward" if integ == EULER else "T_derivative"
       tr = trs.get(g)
       if tr is None:
@@ -332,11 +346,11 @@ def kvalidate(res, trs, quick):
           have.add(k)
           keep.append(c)
       cases = keep
-    verdicts = kvalid.run_cases(res, "C27k" + g[:2], "Gen." + g, cases, tol=2e-4)
+    verdicts = kvalid.run_cases(res, "C27k" + g[:2] + g[-2:], "Gen." + g, cases, tol=2e-4)
     stats[g] = {"cases": len(cases), "agree": verdicts.count(0), "discarded": verdicts.count(1), "disagree": verdicts.count(2)}
     bad += [{"fixture": cases[i]["fixture"], "integrator": cases[i]["integrator"], "kernel": cases[i]["qual"], "xml": KV_FIXTURES[cases[i]["fixture"]]} for i, vv in enumerate(verdicts) if vv == 2]
   res.extra["kernel_validation"] = stats
-  need = [k for g in ("T_derivative", "kforward") for k in KERNELS[g]]
+  need = [k for g in ("T_derivative", "kforward", "T_passive") for k in KERNELS[g]]
   res.obligation("kernel validation traced every translated derivative kernel", all(k in seen for k in need), f"traced: {sorted(seen)}")
   return bad
 
@@ -535,14 +549,18 @@ def build_model(rng, feat):
   m.opt.timestep = float(rng.choice([0.002, 0.01, 0.02]))
   edits = {"timestep": m.opt.timestep}
   if feat["poly"]:
-    m.dof_damping[:] = rng.uniform(0, 0.5, m.nv)
-    m.dof_dampingpoly[:] = rng.uniform(0, 0.3, (m.nv, 2)) * (rng.random((m.nv, 1)) < 0.7)
+    # linear part zero on ~45% of the dofs, each polynomial coefficient zero on ~40%
+    m.dof_damping[:] = rng.uniform(0, 0.5, m.nv) * (rng.random(m.nv) < 0.55)
+    m.dof_dampingpoly[:] = rng.uniform(0, 0.3, (m.nv, 2)) * (rng.random((m.nv, 2)) < 0.6)
     edits["dof_damping"], edits["dof_dampingpoly"] = m.dof_damping.tolist(), m.dof_dampingpoly.tolist()
   if m.ntendon:
-    m.tendon_damping[:] = rng.uniform(0, 1, m.ntendon)
-    if feat["poly"]:
-      m.tendon_dampingpoly[:] = rng.uniform(0, 0.3, (m.ntendon, 2))
+    # tendons always get polynomial damping; linear part zero on ~45% (purely polynomial dampers)
+    m.tendon_damping[:] = rng.uniform(0, 1, m.ntendon) * (rng.random(m.ntendon) < 0.55)
+    m.tendon_dampingpoly[:] = rng.uniform(0, 0.3, (m.ntendon, 2)) * (rng.random((m.ntendon, 2)) < 0.7)
     edits["tendon_damping"], edits["tendon_dampingpoly"] = m.tendon_damping.tolist(), m.tendon_dampingpoly.tolist()
+  if feat.get("disable"):
+    m.opt.disableflags |= int(feat["disable"])
+    edits["disableflags"] = int(m.opt.disableflags)
   for i in range(m.nu):
     if rng.random() < 0.7:
       m.actuator_gaintype[i] = 1
@@ -575,6 +593,8 @@ def apply_edits(m, e):
   if "density" in e:
     m.opt.density, m.opt.viscosity = e["density"], e["viscosity"]
     m.opt.wind[:] = e["wind"]
+  if "disableflags" in e:
+    m.opt.disableflags = int(e["disableflags"])
 
 
 def force_margin_ok(m, d, margin=1e-3):
@@ -632,6 +652,7 @@ def oracle(res, nmodels):
   stats = {"models": 0, "states": 0, "skipped_nv0": 0, "csr_invariant_checked": 0, "models_with_muscle": 0, "models_with_clamped_ctrl": 0}
   for k in range(nmodels):
     feat = dict(poly=bool(k % 2), tendon=bool(k % 3 == 0), fluid=bool(k % 4 in (1, 2)), ellipsoid=bool(k % 8 in (2, 5)), forcelimited=bool(k % 5 == 3), muscle=bool(k % 3 == 2),
+                disable={6: 64, 13: 32 | 64, 20: 32}.get(k % 21, 0),  # DAMPER / SPRING+DAMPER (passive off, a0466b7) / SPRING
                 jac=["dense", "sparse"][k % 2], vel=float(10 ** rng.uniform(-0.5, 1.3)))  # fmt: skip
     xml, edits, m, d = build_model(rng, feat)
     if m.nv == 0:
@@ -732,12 +753,124 @@ def oracle_euler(res, nmodels):
   return fails
 
 
+POLY_XML = """<mujoco><option gravity="0 0 -9.81" jacobian="{jac}"/><worldbody>
+ <body pos="0 0 1"><joint name="j0" axis="0 1 0"/><geom type="capsule" size=".04" fromto="0 0 0 .3 0 0"/><site name="s0" pos=".1 0 .06"/>
+  <body pos=".3 0 0"><joint name="j1" type="slide" axis="1 0 .2"/><joint name="j2" axis="0 0 1"/><geom type="box" size=".06 .03 .02" pos=".1 0 0"/><site name="s1" pos=".12 .03 0"/>
+   <body pos=".25 0 0"><joint name="j3" axis="1 0 0"/><geom type="capsule" size=".03" fromto="0 0 0 .2 .05 0"/><site name="s2" pos=".15 0 .05"/></body></body></body>
+ <body pos="0 .5 1"><joint name="b" type="ball"/><geom type="box" size=".05 .08 .03" pos=".05 0 .02"/></body>
+ </worldbody><tendon>
+  <fixed name="t0"><joint joint="j0" coef="1.3"/><joint joint="j2" coef="-0.6"/></fixed>
+  <fixed name="t1"><joint joint="j1" coef="0.8"/><joint joint="j3" coef="1.1"/><joint joint="j0" coef="-0.4"/></fixed>
+  <spatial name="t2"><site site="s0"/><site site="s1"/><site site="s2"/></spatial>
+ </tendon><actuator><general joint="j1" gaintype="affine" gainprm="1 .5 .7" biastype="affine" biasprm=".1 .2 -.4"/><velocity tendon="t0" kv="0.8"/></actuator></mujoco>"""
+
+# (linear, poly0, poly1) presence patterns: purely polynomial dampers (zero linear part) in half of them
+POLY_PATTERNS = [(0, 1, 1), (0, 1, 0), (0, 0, 1), (1, 0, 0), (1, 1, 0), (1, 1, 1), (0, 0, 0), (1, 0, 1)]
+
+
+def mjw_fd_qderiv(m, d, integ, bias):
+  """Central finite differences of MJWarp's OWN float32 smooth force qfrc_passive + qfrc_actuator
+  (- qfrc_bias): one world per perturbed velocity, a single mjw.forward."""
+  import warp as wp
+
+  import mujoco_warp as mjw
+
+  old = m.opt.integrator
+  m.opt.integrator = integ
+  try:
+    mm = mjw.put_model(m)
+    dd = mjw.put_data(m, d, nworld=2 * m.nv)
+  finally:
+    m.opt.integrator = old
+  v = dd.qvel.numpy()
+  eps = 1e-2 * (1 + np.abs(d.qvel))
+  for k in range(m.nv):
+    v[2 * k, k] += eps[k]
+    v[2 * k + 1, k] -= eps[k]
+  wp.copy(dd.qvel, wp.array(v.astype(np.float32), dtype=float))
+  step = (dd.qvel.numpy()[0::2] - dd.qvel.numpy()[1::2])[np.arange(m.nv), np.arange(m.nv)].astype(np.float64)
+  mjw.forward(mm, dd)
+  f = dd.qfrc_passive.numpy().astype(np.float64) + dd.qfrc_actuator.numpy().astype(np.float64)
+  if bias:
+    f = f - dd.qfrc_bias.numpy().astype(np.float64)
+  J = np.zeros((m.nv, m.nv))
+  for k in range(m.nv):
+    J[:, k] = (f[2 * k] - f[2 * k + 1]) / step[k]
+  return J, float(np.abs(f).max())
+
+
+def oracle_poly(res, nstates):
+  """Linear + polynomial damping on joints AND tendons: every (linear, poly0, poly1) presence pattern incl.
+  zero linear part, mixed coefficient signs, zero / small / large velocities.  M - h*qDeriv handed to the
+  factorisation by the real forward.implicit is compared with MuJoCo's qDeriv, with float64 finite differences
+  of MuJoCo's force (compare_one) and with float32 finite differences of MJWarp's own smooth force."""
+  import mujoco
+
+  rng = np.random.default_rng(vlib.seed() + 2706)
+  fails = []
+  stats = {"states": 0, "tendons_zero_linear_nonzero_poly": 0, "dofs_zero_linear_nonzero_poly": 0, "zero_velocity_dofs": 0}
+  for k in range(nstates):
+    m = mujoco.MjModel.from_xml_string(POLY_XML.format(jac=["dense", "sparse"][k % 2]))
+    m.opt.timestep = float(rng.choice([0.002, 0.01]))
+    signs = (lambda n: np.ones(n)) if k % 3 else (lambda n: rng.choice([-1.0, 1.0], n))  # mixed signs every 3rd state
+    for arr_lin, arr_poly, n, scale in ((m.dof_damping, m.dof_dampingpoly, m.nv, 0.4), (m.tendon_damping, m.tendon_dampingpoly, m.ntendon, 0.8)):
+      for i in range(n):
+        pat = POLY_PATTERNS[int(rng.integers(len(POLY_PATTERNS)))] if (i + k) % 4 else POLY_PATTERNS[(i + k // 4) % 3]
+        c = rng.uniform(0.05, 1.0, 3) * np.array([scale, 0.3, 0.1]) * np.array(pat) * signs(3)
+        arr_lin[i], arr_poly[i] = c[0], c[1:]
+    stats["tendons_zero_linear_nonzero_poly"] += int(np.sum((m.tendon_damping == 0) & np.any(m.tendon_dampingpoly != 0, axis=1)))
+    stats["dofs_zero_linear_nonzero_poly"] += int(np.sum((m.dof_damping == 0) & np.any(m.dof_dampingpoly != 0, axis=1)))
+    edits = {"timestep": m.opt.timestep, "dof_damping": m.dof_damping.tolist(), "dof_dampingpoly": m.dof_dampingpoly.tolist(),
+             "tendon_damping": m.tendon_damping.tolist(), "tendon_dampingpoly": m.tendon_dampingpoly.tolist()}  # fmt: skip
+    d = mujoco.MjData(m)
+    d.qpos[:4] = rng.normal(0, 0.5, 4)
+    q = rng.normal(0, 1, 4)
+    d.qpos[4:8] = q / np.linalg.norm(q)
+    vs = [0.3, 3.0, 30.0][k % 3]  # small / moderate / large velocities
+    d.qvel[:] = (rng.normal(0, vs, m.nv) * rng.choice([-1.0, 1.0], m.nv)).astype(np.float32)
+    if k % 2 == 0:
+      z = rng.random(m.nv) < 0.3
+      d.qvel[z] = 0.0  # |v| kink of the odd polynomial
+      stats["zero_velocity_dofs"] += int(z.sum())
+    d.ctrl[:] = rng.normal(0, 1, m.nu).astype(np.float32)
+    mujoco.mj_forward(m, d)
+    for integ in (IMPLICITFAST, IMPLICIT):
+      bad = compare_one(m, d, integ)
+      res.count()
+      stats["states"] += 1
+      res.nontrivial(("poly", k, int(integ)))
+      # MJWarp's own force, finite differences (float32: looser tolerance, 5e-3 relative + rounding of the force)
+      got, mmax = mjw_qderiv(m, d, integ)
+      J, fmax = mjw_fd_qderiv(m, d, integ, integ == IMPLICIT)
+      if integ == IMPLICIT:
+        mask = dense_D(m, np.ones(m.nD)) != 0
+        exp = np.where(mask, J, 0)
+      else:
+        mask = np.tril(dense_M(m, np.ones(m.nC))) != 0
+        exp = np.where(mask, np.tril((J + J.T) / 2), 0)
+      tol = 5e-3 * (1 + np.abs(exp).max()) + 8 * 6e-8 * mmax / m.opt.timestep + 50 * 6e-8 * fmax / (1e-2 * (1 + np.abs(d.qvel).min()))
+      err = np.abs(got[0] - exp)
+      if err.max() > tol and not bad:
+        i, j = np.unravel_index(np.argmax(err), err.shape)
+        bad = [dict(world=0, integrator=int(integ), err_vs_fd=float(err.max()), err_vs_mujoco=float("nan"), tol=float(tol), worst=[int(i), int(j)], lower_triangle_agrees=False,
+                    mjw=float(got[0][i, j]), mujoco=float("nan"), fd=float(exp[i, j]), qpos=d.qpos.tolist(), qvel=d.qvel.tolist(), ctrl=d.ctrl.tolist(), act=d.act.tolist(), oracle="finite differences of the MJWarp force")]  # fmt: skip
+      for b in bad:
+        b.update(xml=POLY_XML.format(jac=["dense", "sparse"][k % 2]), edits=edits,
+                 features={"poly": True, "tendon": True, "fluid": False, "ellipsoid": False, "forcelimited": False, "jac": ["dense", "sparse"][k % 2], "nv": m.nv, "nu": m.nu, "ntendon": m.ntendon, "polydamp": True})  # fmt: skip
+        fails.append(b)
+  res.extra["oracle_poly"] = stats
+  return fails
+
+
 def classify(f):
   ft = f["features"]
   if f["integrator"] == IMPLICIT and ft["ellipsoid"] and ft["fluid"] and f["lower_triangle_agrees"]:
     return K_ELLIPS
   tag = "implicit" if f["integrator"] == IMPLICIT else "implicitfast"
-  feats = "+".join(k for k in ("fluid", "ellipsoid", "poly", "tendon", "forcelimited", "muscle") if ft.get(k)) or "plain"
+  if ft.get("polydamp"):
+    i, j = f["worst"]
+    return f"C27:oracle:{tag}:polynomial-damping-derivative:{'diagonal' if i == j else 'off-diagonal'}:{ft['jac']}"
+  feats = "+".join(k for k in ("fluid", "ellipsoid", "poly", "tendon", "forcelimited", "muscle", "disable") if ft.get(k)) or "plain"
   return f"C27:oracle:{tag}:qderiv-mismatch:{feats}:{ft['jac']}"
 
 
@@ -845,6 +978,8 @@ def run(res):
     res.obligation("kernel validation: translated derivative kernels agree with traced launches of the real kernels", not kbad, f"{len(kbad)} disagreements")
   lap("kernel validation")
   fails, inv_bad = oracle(res, 36 if quick else 400)
+  pfails = oracle_poly(res, 12 if quick else 120)
+  fails = fails + pfails
   efails = oracle_euler(res, 10 if quick else 100)
   lap("oracle")
   seen = set()
